@@ -211,7 +211,10 @@ fn xfer_stratum(prop: &'static str, w: &Arc<World>) -> Scn {
             let step = 1 + d.enumerate("strat.step", 20);
             let v = d.enumerate("strat.variant", 9);
             conformant = false;
-            if v == 8 {
+            if v == 8 && kind == Kind::Upload {
+                xc.die_after_blocks = Some(step as u64 - 1);
+                what = format!("uploader dies after {} DATA datagrams", step - 1);
+            } else if v == 8 {
                 xc.script.push((step, Adv::Silent));
                 what = format!("silence at step {step}");
             } else {
@@ -441,7 +444,12 @@ pub fn xfer(prop: &'static str, tier: Tier, w: &Arc<World>) -> Scn {
             let step = 1 + d.range("swarm.c07.step", nblocks.min(40) + 1);
             match mode {
                 0 => {
-                    xc.script.push((step, Adv::Silent));
+                    if kind == Kind::Upload && d.chance("swarm.c07.die_mid_window", 1, 2) {
+                        // the uploading peer dies after a number of DATA datagrams, possibly inside a window
+                        xc.die_after_blocks = Some(d.range("swarm.c07.die_after", nblocks.min(40) + 1) as u64);
+                    } else {
+                        xc.script.push((step, Adv::Silent));
+                    }
                     conformant = false;
                     // half of the dying peers close their socket: the server then sees ICMP port
                     // unreachable (ConnectionRefused on its connected socket) instead of silence
